@@ -40,8 +40,13 @@ package engine
 //@     set who = recv
 //@   call .GetIdent
 //@     requires okLoaded && recv == who
+// ... and for a shard that is not loaded the test is made on ITS OWN policy duration and on the END of its time span
+// (a span that only started a duration ago still holds points inside the retention window).
 //@   call (*EngineImpl).nilShardIsExpired
+//@     requires [whole_span_must_have_ended] arg0 == info.DurationInfo.Duration && arg1 == info.Ident.EndTime
 //@     set okNil = ret0
+//@     set whoNil = info
+//@   ghost whoNil Ptr = nil
 //@   call append
 //@     requires okLoaded || okNil
 
